@@ -159,7 +159,7 @@ def judge_smtp(cfg, script, w):
                 d = deciding[r]
                 if d and c not in d:
                     stage_kind = 'all-recipients-rejected-mixed' if whole.startswith('raised') and any(
-                        s.startswith('rcpt') for s in script) and len(set(script.values())) > 1 else 'single-decider'
+                        s.startswith('rcpt') for s in script) and len(set(map(repr, script.values()))) > 1 else 'single-decider'
                     out.append((dict(base, kind='wrong-error-class', reported=c, deciding=','.join(sorted(d)), situation=stage_kind), desc))
                     break
             else:
